@@ -122,11 +122,11 @@ var plans = map[string]*plan{
 	"C07": {
 		Level: "exploration",
 		Rule: "a raw client sends generated SUBSCRIBE packets (1..40 filters: valid / invalid ('#' not last, wildcard inside a level, empty) / '$'-prefixed / repeated, requested QoS 0..2 and 3/0x7f/0x80 built with the reference encoder) and UNSUBSCRIBE packets (1..40 filters held / not held / repeated) with topics.MaxQosAllowed in {0,1,2}; at quiescence (synctest) either the connection is closed or exactly one SUBACK/UNSUBACK with the request's id arrived, one code per filter in order: min(requested, max) for an accepted filter, 0x80 for a rejected one. " +
-			"Afterwards a second client publishes probes (names derived from every listed filter incl. the parent level of '#') and the deliveries must equal the model of granted filters. Concurrent variant: the porcupine-checked subscribe/unsubscribe/publish histories of C01 (a publish whose call follows the SUBACK's return must be delivered, one whose call follows the UNSUBACK's return must not). distinct = (filter kind, requested QoS, server max, request size bucket).",
-		Quick:          []batchSpec{{Test: "TestC07", N: 8, Timeout: 15 * m}, {Test: "TestC01Conc", N: 2, Timeout: 15 * m}},
-		Thorough:       []batchSpec{{Test: "TestC07", N: 16, Timeout: 60 * m}, {Test: "TestC01Conc", N: 8, Timeout: 60 * m}},
+			"Afterwards a second client publishes probes (names derived from every listed filter incl. the parent level of '#') and the deliveries must equal the model of granted filters. Concurrent variant: the porcupine-checked subscribe/unsubscribe/publish histories of C01 (a publish whose call follows the SUBACK's return must be delivered, one whose call follows the UNSUBACK's return must not). Simultaneous requests: 4..13 connections SUBSCRIBE at the same moment to filters on one tree node (same filter, '+' and '#' siblings), 20..39 rounds per case; every SUBACK must arrive, a QoS 1 publication accepted afterwards must reach each of them exactly once before its next PINGRESP; then all UNSUBSCRIBE at the same moment and the next publication must reach none. distinct = (filter kind, requested QoS, server max, request size bucket).",
+		Quick:          []batchSpec{{Test: "TestC07", N: 8, Timeout: 15 * m}, {Test: "TestC01Conc", N: 2, Timeout: 15 * m}, {Test: "TestC07Conc", N: 4, Timeout: 15 * m}},
+		Thorough:       []batchSpec{{Test: "TestC07", N: 16, Timeout: 60 * m}, {Test: "TestC01Conc", N: 8, Timeout: 60 * m}, {Test: "TestC07Conc", N: 8, Timeout: 60 * m}},
 		EvalStats:      []string{"c07.subscribes", "c07.unsubscribes"},
-		Floors:         map[string]int64{"c07.scenarios": 2000, "c07.subscribes": 5000, "c07.unsubscribes": 5000, "c07.probes": 100000, "classes": 150},
+		Floors:         map[string]int64{"c07.scenarios": 2000, "c07.subscribes": 5000, "c07.unsubscribes": 5000, "c07.probes": 100000, "c07.conc_cases": 14, "c07.conc_rounds": 300, "classes": 150},
 		FloorsThorough: map[string]int64{"c07.scenarios": 70000, "classes": 150},
 		Assumptions:    []string{"quiescence by synctest.Wait()", "a '$'-prefixed filter may be granted or refused (0x80)"},
 	},
@@ -173,12 +173,12 @@ var plans = map[string]*plan{
 	},
 	"C19": {
 		Level:       "exploration",
-		Rule:        "K in {1,2,3,5,10,60} s x pattern {silent from CONNACK; 8 intervals of traffic then silent; PINGREQ every 0.25K/0.5K/0.9K/0.99K for 50 intervals; PUBLISH-only at those intervals; a packet trickled one byte per 0.9K (recorded, not asserted)} in a synctest bubble over net.Pipe, so time is virtual and exact. Every PINGREQ must be answered, an active client must never be dropped, a silent one must be dropped later than K and no later than 2K after its last byte, and a witness must then receive its will exactly once. distinct = (K, pattern, interval).",
-		Quick:       []batchSpec{{Test: "TestC19", N: 4, Timeout: 10 * m}},
-		Thorough:    []batchSpec{{Test: "TestC19", N: 4, Timeout: 10 * m}},
+		Rule:        "K in {1,2,3,5,10,60} s x pattern {silent from CONNACK; 8 intervals of traffic then silent; PINGREQ every 0.25K/0.5K/0.9K/0.99K for 50 intervals; PUBLISH-only at those intervals; a packet trickled one byte per 0.9K (recorded, not asserted)} in a synctest bubble over net.Pipe, so time is virtual and exact. Every PINGREQ must be answered, an active client must never be dropped, a silent one must be dropped later than K and no later than 2K after its last byte, and a witness must then receive its will exactly once. Plus the patterns silent-mid-packet, silent-after-header-byte, large-then-ping (a 3 KB packet and one almost as large as the 16 KiB ring in one write, then pings every 0.25 K / 0.9 K, then silence) and uneven pacing (a gap of 0.05..0.5 K followed by one of 0.8..0.99 K, 50 intervals). Window cells (real time, K = 1 s): a goroutine of the silent connection (processor or sender at its check-to-Wait step, or a publisher waiting for space in its outgoing ring) is held by the yield hook, under the mutex it holds anyway, until the keep-alive expiry is closing that very ring; the teardown must still finish (stop event, else goroutine-state verdict) and the will must arrive. distinct = (K, pattern, interval).",
+		Quick:       []batchSpec{{Test: "TestC19", N: 4, Timeout: 10 * m}, {Test: "TestC19Window", N: 3, Timeout: 10 * m}},
+		Thorough:    []batchSpec{{Test: "TestC19", N: 4, Timeout: 10 * m}, {Test: "TestC19Window", N: 6, Timeout: 20 * m}},
 		EvalStats:   []string{"c19.runs"},
-		Floors:      map[string]int64{"c19.runs": 126, "c19.pings_answered": 1000, "classes": 126},
-		Exhaustive:  func(r *result) bool { return r.stats["c19.runs"] == 126 },
+		Floors:      map[string]int64{"c19.runs": 138, "c19.pings_answered": 1000, "c19.window_cells": 5, "classes": 138},
+		Exhaustive:  func(r *result) bool { return false },
 		Assumptions: []string{"virtual time (testing/synctest) changes when timers fire, not what the code does when they fire"},
 	},
 	"C02": {
@@ -215,14 +215,14 @@ var plans = map[string]*plan{
 	},
 	"C16": {
 		Level: "fault_enumeration",
-		Rule: "teardown matrix in a synctest bubble (net.Pipe, 16 KiB rings): cause {DISCONNECT, abrupt close, keep-alive expiry in virtual time, protocol error, Server.Close} x buffer condition {idle; own outbound ring full because the subscriber stopped reading and the publisher's processor is parked in its WriteWait; publisher's inbound ring full as well; cross-blocked pair publishing to each other, both not reading} x order in which the two connections end x will present/absent x CleanSession 0/1 (160 cells), plus 32 pipelined cells: the publisher's processor is parked on a delivery to a subscriber that stopped reading (decided on the processor's handled-packet events), the packet right behind the blocked PUBLISH is a DISCONNECT or a malformed packet, traffic of four packet sizes behind it keeps the publisher's inbound ring full and its receiver parked for space, then the subscriber reads again and the publisher's teardown must finish at the next quiescence. " +
-			"Oracle once every connection that had stopped reading has been ended: exactly one teardown-finished event per connection, wills seen by a witness exactly once unless the end was a DISCONNECT, a probe publish to the dead client's filter is acknowledged and reaches nobody, a clean session is gone, Server.Close returns, and a goroutine snapshot shows no frame of the library. A parked Server.Close or leftover goroutine is reported with its stack; a mutex deadlock (not durably blocked, so synctest.Wait cannot return) is caught by the process-wide deadlock watchdog. Window cells (real time): the yield hook delays a goroutine of the victim connection between its done-check and its Cond.Wait on the inbound ring (processor), the outbound ring (sender) or the outbound ring seen from a publisher blocked for space, and the connection is ended (abrupt / DISCONNECT / Server.Close) inside that window; teardown must still finish (stop.done event), decided by goroutine state otherwise. distinct = cells.",
+		Rule: "teardown matrix in a synctest bubble (net.Pipe, 16 KiB rings): cause {DISCONNECT, abrupt close, keep-alive expiry in virtual time, protocol error, Server.Close} x buffer condition {idle; own outbound ring full because the subscriber stopped reading and the publisher's processor is parked in its WriteWait; publisher's inbound ring full as well; cross-blocked pair publishing to each other, both not reading; the connection's own inbound ring holding an incomplete message almost as large as the ring behind a small one (less than one read block free)} x order in which the two connections end x will present/absent x CleanSession 0/1 (200 cells), plus 32 pipelined cells: the publisher's processor is parked on a delivery to a subscriber that stopped reading (decided on the processor's handled-packet events), the packet right behind the blocked PUBLISH is a DISCONNECT or a malformed packet, traffic of four packet sizes behind it keeps the publisher's inbound ring full and its receiver parked for space, then the subscriber reads again and the publisher's teardown must finish at the next quiescence. " +
+			"Oracle once every connection that had stopped reading has been ended: exactly one teardown-finished event per connection, wills seen by a witness exactly once unless the end was a DISCONNECT, a probe publish to the dead client's filter is acknowledged and reaches nobody, a clean session is gone, Server.Close returns, and a goroutine snapshot shows no frame of the library. A parked Server.Close or leftover goroutine is reported with its stack; a mutex deadlock (not durably blocked, so synctest.Wait cannot return) is caught by the process-wide deadlock watchdog. Window cells (real time): the yield hook delays a goroutine of the victim connection between its done-check and its Cond.Wait on the inbound ring (processor), the outbound ring (sender) or the outbound ring seen from a publisher blocked for space, and the connection is ended (abrupt / DISCONNECT / Server.Close / keep-alive expiry) inside that window; teardown must still finish (stop.done event), decided by goroutine state otherwise. distinct = cells.",
 		Quick:          []batchSpec{{Test: "TestC16", N: 8, Timeout: 15 * m}, {Test: "TestC16Window", N: 3, Timeout: 15 * m}},
 		Thorough:       []batchSpec{{Test: "TestC16", N: 16, Timeout: 30 * m}, {Test: "TestC16Window", N: 6, Timeout: 30 * m}},
 		EvalStats:      []string{"c16.cells"},
-		Floors:         map[string]int64{"c16.cells": 192, "c16.pipelined_cells": 32, "c16.window_cells": 25, "classes": 195},
-		FloorsThorough: map[string]int64{"c16.cells": 768, "c16.pipelined_cells": 128, "c16.window_cells": 170, "classes": 195},
-		Exhaustive:     func(r *result) bool { return r.stats["c16.cells"] >= 192 },
+		Floors:         map[string]int64{"c16.cells": 232, "c16.pipelined_cells": 32, "c16.window_cells": 30, "classes": 235},
+		FloorsThorough: map[string]int64{"c16.cells": 928, "c16.pipelined_cells": 128, "c16.window_cells": 200, "classes": 235},
+		Exhaustive:     func(r *result) bool { return r.stats["c16.cells"] >= 232 },
 		Assumptions:    []string{"'bounded time' is decided at synctest quiescence (every goroutine durably blocked) plus goroutine-state inspection, not by a deadline", "read/write errors as a cause are exercised in C09 (chaos conn) and C05"},
 	},
 	"C17": {
